@@ -78,6 +78,11 @@ fn public(name: &str, a: &[Vec<u8>]) -> Option<Vec<Vec<u8>>> {
         "g1_normalize" => { let mut p = g1v(&a[0]); p.normalize(); vec![p.x().to_slice().to_vec(), p.y().to_slice().to_vec(), p.z().to_slice().to_vec()] }
         "g1_affine_new" => match AffineG1::new(fqv(&a[0]), fqv(&a[1])) { Ok(_) => vec![vec![1]], Err(GroupError::NotOnCurve) => vec![vec![0], vec![1]], Err(GroupError::NotInSubgroup) => vec![vec![0], vec![2]] },
         "g2_affine_new" => match AffineG2::new(fq2v(&a[0]), fq2v(&a[1])) { Ok(_) => vec![vec![1]], Err(GroupError::NotOnCurve) => vec![vec![0], vec![1]], Err(GroupError::NotInSubgroup) => vec![vec![0], vec![2]] },
+        // lib.rs group wrappers: [p+q, p-q, -p, p*k, k*p, normalize(p), is_zero(p), p==q] as canonical x||y||z
+        "g1_wrap_ops" => { let (p, q) = (g1v(&a[0]), g1v(&a[1])); let k = Fr::from_slice(&a[2]).unwrap(); let enc = |g: G1| { let mut v = g.x().to_slice().to_vec(); v.extend(g.y().to_slice()); v.extend(g.z().to_slice()); v };
+            let mut n = p; n.normalize(); vec![enc(p + q), enc(p - q), enc(-p), enc(p * k), enc(k * p), enc(n), vec![p.is_zero() as u8], vec![(p == q) as u8]] }
+        "g2_wrap_ops" => { let (p, q) = (g2v(&a[0]), g2v(&a[1])); let k = Fr::from_slice(&a[2]).unwrap(); let enc = |g: G2| { let mut v = fq2_bytes(g.x()); v.extend(fq2_bytes(g.y())); v.extend(fq2_bytes(g.z())); v };
+            let mut n = p; n.normalize(); vec![enc(p + q), enc(p - q), enc(-p), enc(p * k), enc(k * p), enc(n), vec![p.is_zero() as u8], vec![(p == q) as u8]] }
         "pairing" => vec![pairing(g1v(&a[0]), g2v(&a[1])).to_slice().to_vec()],
         "fast_pairing" => vec![fast_pairing(g1v(&a[0]), g2v(&a[1])).to_slice().to_vec()],
         "prepared_pairing" => { let p = G2Prepared::from(g2v(&a[1])); let mut out = vec![]; for k in 0..a.len() { if k != 1 { out.push(p.pairing(&g1v(&a[k])).to_slice().to_vec()); } } out }
